@@ -35,14 +35,14 @@ RULE = ('RandomChoice: probability vectors of 1..1e5 items (float64/float32; lea
         'a case is non-trivial when distinct by content hash and (for choice) has >= 1 item and >= 1 draw')
 TRUSTED = [
     'Coq 8.16.1 kernel incl. vm_compute (no native_compute)',
-    'all 22 theorems closed under the global context (no axioms); C08_choice / C08_choice_accepted are closed over eight / thirteen order and monotonicity '
+    'all 26 theorems closed under the global context (no axioms); C08_choice / C08_choice_accepted are closed over eight / thirteen order and monotonicity '
     'premises on the carrier (proved for the rationals: C08_choice_Q, C08_choice_accepted_Q); that finite IEEE doubles without overflow meet '
     'them (monotone rounding, x/x = 1, 0/x = 0) is a trusted reading, exercised bit-exactly by the correspondence',
     'the generator is an abstract deterministic machine (Section variables rng/seed_rng/draw): MT19937 itself is not modelled',
     'generate_background_events / generate_signal_events are arbitrary state-passing functions of the service they are '
     'handed (premise: all randomness flows through the passed RandomStateService - checked by the request traces, the '
     'equal-seed runs and a static scan for np.random.* globals)',
-    'translator/py2coq.py (73 kernels of G_random.v pinned by K_* lemmas)',
+    'translator/py2coq.py (89 kernels of G_random.v pinned by K_* lemmas)',
     'extraction (ExtrOcamlBasic only) + ocaml/c08/driver.ml + ocaml/common/numf.ml for the float run of RandomChoice',
     'np.searchsorted on a non-decreasing table = number of entries <= v (side=right); np.cumsum = sequential sum; '
     'np.sum in _assert_probabilities read left-to-right (decision kept away from atol)',
@@ -371,6 +371,77 @@ def run_seed(ctx):
             m = ['Ok', v[1]] if isinstance(v, tuple) and v[0] == 'Ok' else ['Err', v[1] if isinstance(v, tuple) else v]
             if m != impl:
                 ctx.disagree('extend_trial_data_file.seed', case, impl, m)
+
+
+# ===================================================================== the real trial-file pipeline
+
+def run_trial_file(ctx):
+    """extend_trial_data_file -> create_trial_data_file -> Analysis.do_trials -> parallelize -> do_trial, all real (the
+    analysis object is the one of build_analysis): the appended rows carry the chosen unused seed, and they are exactly
+    what a fresh RandomStateService(chosen seed) handed to do_trials produces - i.e. the re-seeded service is handed down
+    unchanged.  ncpu = 2: master rows as before, worker rows carry the worker seed (C08_extend_rows_workers_partial)."""
+    import skyllh.core.utils.analysis as ua
+    from skyllh.core.random import RandomStateService
+    rng = ctx.rng
+    combos = [(1, [0, 1], 1), (0, [0, 1, 2, 3, 5], 1), (7, [0, 1], 1), (2, [2, 1, 3], 2), (0, [0], 2)]
+    for _ in range(ctx.budget(2, 30)):
+        col = [rng.randint(0, 6) for _ in range(rng.randint(1, 6))]
+        combos.append((rng.choice(col + [rng.randint(0, 7)]), col, rng.choice([1, 1, 2])))
+    exprs, impls = [], []
+    for (rss_seed, seeds, ncpu) in combos:
+        c = gen_trial_cfg(rng, 1, converging=True)
+        c.update(explicit_minimizer_rss=False, alias=False, mean_n_sig=0.0, scripts=[[(1, 1)]])
+        case = {'kind': 'trial-file', 'rss_seed': rss_seed, 'seeds': seeds, 'ncpu': ncpu, 'cfg': c}
+        ctx.case(case)
+        ctx.count(f'trial-file:ncpu:{ncpu}')
+        kw = dict(mean_n_sig=0, bkg_kwargs={'poisson': c['bkg_poisson']}, sig_kwargs={'poisson': c['sig_poisson']})
+        ntr = 2 * ncpu
+        try:
+            ana = build_analysis(c)
+            (_, _, _, old) = ua.create_trial_data_file(ana=ana, rss=RandomStateService(seed=99), n_trials=len(seeds), ncpu=1, **kw)
+            old = np.array(old)
+            old['seed'] = seeds
+            rss = RandomStateService(seed=rss_seed)
+            out = ua.extend_trial_data_file(ana=build_analysis(c), rss=rss, n_trials=ntr, trial_data=old.copy(), ncpu=ncpu, **kw)
+        except Exception as ex:
+            ctx.violation('extend_trial_data_file', 'pipeline-raises-' + exc_name(ex), str(ex)[:200], case=case)
+            continue
+        new_seeds = [int(x) for x in out['seed'][len(seeds):]]
+        chosen = int(rss.seed)
+        want_chosen = rss_seed if rss_seed not in seeds else min(i for i in range(1, len(set(seeds)) + 2) if i not in seeds)
+        ref = np.random.RandomState(chosen)
+        wseeds = [int(ref.randint(0, 2 ** 32)) for _ in range(ncpu - 1)]
+        want_rows = [s for k, s in enumerate([chosen] + wseeds) for _ in range(len(np.array_split(np.arange(ntr), ncpu)[k]))]
+        if chosen != want_chosen or chosen in seeds:
+            ctx.violation('extend_trial_data_file', 'seed-reused', f'service seed after the call is {chosen}', case=case, impl=chosen)
+        if new_seeds != want_rows:
+            ctx.violation('extend_trial_data_file', 'row-seeds', 'the appended rows do not carry the seed of the service their process '
+                          'worked with (chosen seed / worker seeds)', case=case, impl=new_seeds, model=want_rows,
+                          predicate='rows carry the chosen unused seed')
+        hit = [s for s in new_seeds if s in seeds]
+        if hit:
+            ctx.violation('extend_trial_data_file', 'seed-reused', f'appended rows carry seeds {hit} that occur in the file',
+                          case=case, impl=new_seeds, predicate='appended seeds not in trial_data["seed"]')
+        # the rows are those of a fresh service with the chosen seed handed to do_trials
+        try:
+            fresh = build_analysis(c).do_trials(rss=RandomStateService(seed=chosen), n=ntr, ncpu=ncpu, mean_n_sig_0=0.0,
+                                                minimizer_rss=None, mean_n_bkg_list=None, **kw)
+            if np.array(out)[len(seeds):].tobytes() != np.array(fresh).tobytes():
+                ctx.violation('create_trial_data_file', 'service-not-handed-down', 'the appended trials differ from do_trials with a '
+                              'fresh RandomStateService(chosen seed)', case=case,
+                              predicate='create_trial_data_file hands the re-seeded service to do_trials unchanged')
+        except Exception as ex:
+            ctx.violation('create_trial_data_file', 'pipeline-raises-' + exc_name(ex), str(ex)[:200], case=case)
+        table = f'[({zlit(chosen)}, {zlist(wseeds + [0])})]'
+        exprs.append(f'extend_rows tm_rng Z (tm_seed {table}) tm_draw (fun v => v) {zlit(rss_seed)} {zlist(seeds)} {ncpu}')
+        impls.append((case, [chosen] + wseeds))
+    if ctx.model_ok and exprs:
+        vals = common.coq_eval('c08tf', IMPORTS, exprs)
+        for (case, rows), v in zip(impls, vals):
+            ctx.corr_cases += 1
+            m = list(v[1]) if isinstance(v, tuple) and v[0] == 'Ok' else ['Err', v]
+            if m != rows:
+                ctx.disagree('extend_trial_data_file.rows', case, rows, m)
 
 
 # ===================================================================== workers
@@ -1464,7 +1535,155 @@ def history_subjects():
                       ('signal(mean=0, fixed)', lambda o, r: o.generate_signal_events(r, mean=0, poisson=False)),
                       ('signal(mean=9, fixed)', lambda o, r: o.generate_signal_events(r, mean=9, poisson=False))],
                      lambda o: b''.join(_b(d.mc) for d in o._data_list) + o._sig_candidates.tobytes(), None))
+    # --- time scrambling (core and IceCube flavour), fixed scrambled exp data as background
+    from skyllh.core.scrambling import TimeScramblingMethod
+    from skyllh.i3.scrambling import I3TimeScramblingMethod
+    from skyllh.i3.background_generation import FixedScrambledExpDataI3BkgGenMethod
+
+    def hevs(n, off=0.):
+        return DFRA(np.array([(0.1 * i + off, 0.01 * i, 0.2 * i, 0.5 + 0.05 * i, 0.0) for i in range(n)],
+                             dtype=[('ra', np.float64), ('dec', np.float64), ('azi', np.float64), ('zen', np.float64),
+                                    ('time', np.float64)]))
+
+    def tgen(ivs):
+        return TimeGenerator(LivetimeTimeGenerationMethod(Livetime(ivs.copy())))
+    subjects.append(('TimeScramblingMethod.scramble',
+                     [lambda: DataScrambler(TimeScramblingMethod(tgen(ivs_a), lambda azi, zen, mjd: ((azi + mjd) % 6.28, zen - 1.57))),
+                      lambda: DataScrambler(I3TimeScramblingMethod(tgen(ivs_b)))],
+                     [('scramble(6 events, copy)', lambda o, r: o.scramble_data(r, None, hevs(6), copy=True)),
+                      ('scramble(2 events)', lambda o, r: o.scramble_data(r, None, hevs(2, 1.))),
+                      ('scramble(9 events)', lambda o, r: o.scramble_data(r, None, hevs(9, 2.)))],
+                     None, None))
+
+    class ExpBox:
+        def __init__(self, ivs):
+            self.m = FixedScrambledExpDataI3BkgGenMethod(cfg=cfg, data_scrambler=DataScrambler(I3TimeScramblingMethod(tgen(ivs))))
+            self.d1 = DatasetData(data_exp=hevs(7), data_mc=None, livetime=1.0)
+            self.d2 = DatasetData(data_exp=hevs(4, 3.), data_mc=None, livetime=1.0)
+
+        def snap(self):
+            return _b(self.d1.exp) + _b(self.d2.exp)
+    subjects.append(('FixedScrambledExpDataI3BkgGenMethod.generate_events',
+                     [lambda: ExpBox(ivs_a), lambda: ExpBox(ivs_b)],
+                     [('events(data1)', lambda o, r: o.m.generate_events(r, DS(), o.d1)),
+                      ('events(data2)', lambda o, r: o.m.generate_events(r, DS(), o.d2)),
+                      ('events(data1) again', lambda o, r: o.m.generate_events(r, DS(), o.d1))],
+                     lambda o: o.snap(), None))
+
+    # --- the real MultiDatasetSignalGenerator (distribution of n over the data sets incl. the rounding draws)
+    subjects.append(('MultiDatasetSignalGenerator.generate_signal_events',
+                     [lambda: build_md_sig_generator([0.5, 0.3, 0.2]), lambda: build_md_sig_generator([0.34, 0.33, 0.33])],
+                     [('signal(mean=7, fixed)', lambda o, r: o.generate_signal_events(r, mean=7, poisson=False)),
+                      ('signal(mean=5.5, poisson)', lambda o, r: o.generate_signal_events(r, mean=5.5)),
+                      ('signal(mean=2, fixed)', lambda o, r: o.generate_signal_events(r, mean=2, poisson=False)),
+                      ('signal(mean=11, fixed)', lambda o, r: o.generate_signal_events(r, mean=11, poisson=False))],
+                     None, None))
     return subjects
+
+
+def build_md_sig_generator(weights):
+    """the real MultiDatasetSignalGenerator.generate_signal_events; services and per-dataset generators are stand-ins
+    that draw from the service they are handed"""
+    from skyllh.core.config import Config
+    from skyllh.core.signal_generator import MultiDatasetSignalGenerator
+    g = MultiDatasetSignalGenerator.__new__(MultiDatasetSignalGenerator)
+    g._cfg = Config()
+
+    class W:
+        def calculate(self, *a, **k):
+            pass
+
+    class F:
+        src_detsigyield_weights_service = W()
+
+        def calculate(self):
+            pass
+
+        def get_weights(self):
+            return (np.array(weights, dtype=np.float64), None)
+
+    class DsGen:
+        def __init__(self, k):
+            self.k = k
+
+        def generate_signal_events(self, rss, mean, poisson, src_detsigyield_weights_service=None):
+            n = int(mean)
+            return (n, {self.k: np.asarray(rss.random.uniform(size=n)) + self.k})
+    g._ds_sig_weight_factors_service = F()
+    g._src_params_recarray = np.zeros((1,), dtype=[('x', np.float64)])
+    g._sig_generator_list = [DsGen(k) for k in range(len(weights))]
+
+    class Arr(np.ndarray):
+        pass
+    return g
+
+
+def run_id_reuse(ctx):
+    """corpus of fix 77d8afa: a method that served DatasetData A must not serve a NEW DatasetData B from A's cache after A
+    was freed and B got A's address (the cache was keyed on id(data) only)"""
+    import gc
+    from skyllh.core.config import Config
+    from skyllh.core.random import RandomStateService
+    from skyllh.core.background_generation import MCDataSamplingBkgGenMethod
+    from skyllh.core.dataset import DatasetData
+    from skyllh.core.storage import DataFieldRecordArray as DFRA
+    cfg = Config()
+
+    def mkdata(n, k):
+        mc = DFRA(np.array([(0.1 * i + k, 0.01 * i, 2.0 + i, 1.0) for i in range(n)],
+                           dtype=[('ra', float), ('dec', float), ('log_energy', float), ('mcweight', float)]))
+        exp = DFRA(np.array([(0.1, 0.01, 2.0)], dtype=[('ra', float), ('dec', float), ('log_energy', float)]))
+        return DatasetData(data_exp=exp, data_mc=mc, livetime=1.0)
+
+    def prob(dataset, data, events):
+        w = np.array(events['mcweight'])
+        return w / w.sum()
+
+    class DS:
+        name = 's'
+
+    def method():
+        return MCDataSamplingBkgGenMethod(cfg=cfg, get_event_prob_func=prob, get_mean_func=None, data_scrambler=None,
+                                          keep_mc_data_fields=['mcweight'])
+    def parts(n, k):
+        mc = DFRA(np.array([(0.1 * i + k, 0.01 * i, 2.0 + i, 1.0) for i in range(n)],
+                           dtype=[('ra', float), ('dec', float), ('log_energy', float), ('mcweight', float)]))
+        exp = DFRA(np.array([(0.1, 0.01, 2.0)], dtype=[('ra', float), ('dec', float), ('log_energy', float)]))
+        return mc, exp
+    reused = 0
+    for attempt in range(5):
+        m = method()
+        mc1, exp1 = parts(10, 0.0)
+        mc2, exp2 = parts(10, 100.0)
+        d1 = DatasetData(data_exp=exp1, data_mc=mc1, livetime=1.0)
+        i1 = id(d1)
+        m.generate_events(RandomStateService(1), DS(), d1, mean=3.0, poisson=False)
+        del d1
+        gc.collect()
+        # allocate new DatasetData objects until one lands on the freed address (the others are kept alive)
+        hold, d2 = [], None
+        for _ in range(3000):
+            cand = DatasetData(data_exp=exp2, data_mc=mc2, livetime=1.0)
+            if id(cand) == i1:
+                d2 = cand
+                break
+            hold.append(cand)
+        same = d2 is not None
+        if d2 is None:
+            d2 = DatasetData(data_exp=exp2, data_mc=mc2, livetime=1.0)
+        reused += same
+        (n, ev) = m.generate_events(RandomStateService(1), DS(), d2, mean=3.0, poisson=False)
+        (n2, ev2) = method().generate_events(RandomStateService(1), DS(), d2, mean=3.0, poisson=False)
+        ctx.case({'id-reuse': attempt})
+        if _b(ev) != _b(ev2) or n != n2:
+            ctx.violation('MCDataSamplingBkgGenMethod.generate_events', 'stale-cache-after-id-reuse',
+                          f'events for a new DatasetData are drawn from the cache of a freed one (id re-used: {bool(same)}): '
+                          f'ra {np.asarray(ev["ra"])[:3]} vs fresh {np.asarray(ev2["ra"])[:3]}',
+                          case={'kind': 'id-reuse', 'attempt': attempt}, predicate='result depends on the data handed in, not on a freed one')
+            break
+        del hold
+    ctx.count('history:id-reuse-attempts', attempt + 1)
+    ctx.count('history:id-reuse-address-reused', int(reused))
 
 
 def run_history(ctx):
@@ -1557,32 +1776,80 @@ def run_history(ctx):
 
 
 def static_scan(ctx):
-    """no module of skyllh may use numpy's global generator or the `random` module"""
+    """every source of randomness in skyllh/ must be the `random` attribute of a RandomStateService that was handed in:
+    no global numpy generator, no `random` module under any import spelling, no RandomState / Generator built outside
+    core/random.py, no RandomStateService built inside a function that is handed one (except the two sanctioned sites),
+    no scipy `.rvs()` without random_state=<service>.random"""
     bad = []
     root = os.path.join(common.REPO, 'skyllh')
     nfiles = 0
+    SANCTIONED_NEW_SERVICE = {('skyllh/core/analysis.py', 'do_trial'), ('skyllh/core/multiproc.py', 'parallelize')}
     for dp, dn, fn in os.walk(root):
         for f in fn:
             if not f.endswith('.py'):
                 continue
             path = os.path.join(dp, f)
+            rel = os.path.relpath(path, common.REPO)
             nfiles += 1
             try:
                 tree = ast.parse(open(path).read())
             except SyntaxError:
                 continue
+            # names bound to numpy / numpy.random / random modules by the imports of this file
+            np_names, npr_names = {'np', 'numpy'}, set()
+            for node in ast.walk(tree):
+                if isinstance(node, ast.Import):
+                    for a in node.names:
+                        if a.name == 'numpy':
+                            np_names.add(a.asname or 'numpy')
+                        if a.name == 'numpy.random':
+                            bad.append((rel, node.lineno, 'import numpy.random'))
+                            npr_names.add(a.asname or 'numpy')
+                        if a.name == 'random' or a.name.startswith('random.'):
+                            bad.append((rel, node.lineno, 'import random'))
+                if isinstance(node, ast.ImportFrom) and node.level == 0:
+                    if node.module in ('random', 'numpy.random', 'numpy.random.mtrand', 'secrets'):
+                        bad.append((rel, node.lineno, 'from ' + node.module + ' import ...'))
+                    if node.module == 'numpy' and any(a.name == 'random' for a in node.names):
+                        bad.append((rel, node.lineno, 'from numpy import random'))
+            # enclosing function of every node
+            parents = {}
+            for node in ast.walk(tree):
+                for ch in ast.iter_child_nodes(node):
+                    parents[ch] = node
+
+            def enclosing_funcs(n):
+                out = []
+                while n in parents:
+                    n = parents[n]
+                    if isinstance(n, (ast.FunctionDef, ast.AsyncFunctionDef)):
+                        out.append(n)
+                return out
             for node in ast.walk(tree):
                 if isinstance(node, ast.Attribute) and isinstance(node.value, ast.Attribute) \
                         and node.value.attr == 'random' and isinstance(node.value.value, ast.Name) \
-                        and node.value.value.id in ('np', 'numpy') and node.attr not in ('RandomState',):
-                    bad.append((os.path.relpath(path, common.REPO), node.lineno, 'np.random.' + node.attr))
-                if isinstance(node, ast.Import) and any(a.name == 'random' for a in node.names):
-                    bad.append((os.path.relpath(path, common.REPO), node.lineno, 'import random'))
-                if isinstance(node, ast.ImportFrom) and node.module in ('random', 'numpy.random') and node.level == 0:
-                    bad.append((os.path.relpath(path, common.REPO), node.lineno, 'from ' + node.module))
+                        and node.value.value.id in np_names:
+                    if not (node.attr == 'RandomState' and rel == 'skyllh/core/random.py'):
+                        bad.append((rel, node.lineno, 'np.random.' + node.attr))
+                if isinstance(node, ast.Call):
+                    callee = ast.unparse(node.func)
+                    last = callee.split('.')[-1]
+                    if last in ('RandomState', 'default_rng', 'Generator', 'MT19937', 'PCG64', 'SeedSequence') \
+                            and rel != 'skyllh/core/random.py':
+                        bad.append((rel, node.lineno, callee + '(...)'))
+                    if last == 'RandomStateService':
+                        fs = enclosing_funcs(node)
+                        handed = [fn_ for fn_ in fs if any(a.arg in ('rss', 'minimizer_rss') for a in
+                                                           fn_.args.args + fn_.args.kwonlyargs)]
+                        if handed and not any((rel, fn_.name) in SANCTIONED_NEW_SERVICE for fn_ in fs):
+                            bad.append((rel, node.lineno, f'RandomStateService(...) inside {handed[0].name}(rss, ...)'))
+                    if last == 'rvs':
+                        kw = {k.arg: ast.unparse(k.value) for k in node.keywords}
+                        if 'random_state' not in kw or not kw['random_state'].endswith('.random'):
+                            bad.append((rel, node.lineno, callee + '(...) without random_state=<service>.random'))
     ctx.count('static:files-scanned', nfiles)
     if bad:
-        ctx.violation('skyllh', 'unsanctioned-randomness', f'randomness outside RandomStateService: {bad[:5]}',
+        ctx.violation('skyllh', 'unsanctioned-randomness', f'randomness outside the handed RandomStateService: {bad[:5]}',
                       case={'kind': 'static', 'sites': bad[:20]}, predicate='all randomness flows through rss.random')
 
 
@@ -1622,10 +1889,12 @@ def run(ctx):
     run_choice(ctx, exe, cases)
     ctx.sample({'choice': {k: (v if k not in ('p', 'u') else [float.fromhex(x) for x in v][:8]) for k, v in cases[0].items()}})
     run_seed(ctx)
+    run_trial_file(ctx)
     run_workers(ctx)
     run_completion_order(ctx)
     run_reseed(ctx)
     run_signal(ctx)
+    run_id_reuse(ctx)
     run_history(ctx)
     run_trials(ctx)
     run_determinism(ctx)
@@ -1663,10 +1932,14 @@ def replay(ctx, rp):
         run_completion_order(ctx)
     elif kind == 'history':
         run_history(ctx)
+    elif kind == 'id-reuse':
+        run_id_reuse(ctx)
     elif kind in ('reseed', 'reseed-none'):
         run_reseed(ctx)
     elif kind == 'signal':
         run_signal(ctx)
+    elif kind == 'trial-file':
+        run_trial_file(ctx)
     elif kind == 'static':
         static_scan(ctx)
     else:
